@@ -118,6 +118,7 @@ namespace smt
     std::vector<constr *> constrs;              // the collection of problem constraints..
     std::vector<std::vector<constr *>> watches; // for each literal 'p', a list of constraints watching 'p'..
     std::vector<lbool> assigns;                 // the current assignments..
+    bool inconsistent = false;                  // a conflict has been found at root-level: the problem has no solution..
 
     std::queue<lit> prop_q;                     // propagation queue..
     std::vector<lit> trail;                     // the list of assignment in chronological order..
